@@ -9,6 +9,7 @@ import JunoModel.C19.ProofsTasks
 import JunoModel.C19.ProofsHash
 import JunoModel.C19.ProofsCache
 import JunoModel.C19.ProofsR5
+import JunoModel.C19.ProofsR6
 /-!
 C19 — property theorems (statements only; the proofs are one-line calls into `Proofs*.lean`).
 
@@ -1014,6 +1015,171 @@ theorem refusal_classes [DecidableEq H] (b : Bounds) (cfg : Cfg) (f : HashFns H)
   ⟨fun r h => refusal_some_is_noroute b cfg PCfg.current rfl f rs sg s tp u sender r h,
    fun h => refusal_none_not_noroute b cfg PCfg.current f rs sg s tp u sender (fun st hst => hsub _ st hst) h⟩
 
+
+/-! ## 12. Round 6: the hand-over of a unit to its subprocessor (`ModelR6`)
+
+Until round 5 the step of the processor model was "the unit was handed over and processed to completion";
+`ProcessMessage`'s send into the subprocessor's channel — where the defect repaired by 5e563fa lived — was
+outside the model. `HProc` carries the channels' contents; `offer` is `ProcessMessage`, `consume` the
+subprocessor receiving and dealing with the next unit of its channel. `HCfg.current` is /repo (5e563fa:
+a channel with room for `NumTotalShards` units), `HCfg.before5e563fa` the unbuffered channel. -/
+
+/-- `handover_first_unit_is_never_dropped` — whatever the channel (33cd01b: blocking send): a unit whose key
+is neither finalized nor being processed and that `createSubprocessor` does not refuse is TAKEN; the
+subprocessor is registered (task slot, map entry) at that moment, and the unit waits in its channel. -/
+theorem handover_first_unit_is_never_dropped [DecidableEq H] (hc : HCfg) (b : Bounds) (pc : PCfg)
+    (sg : SigScheme H) (s : Sched) (hp : HProc H) (u : PUnit H) (sender : Bytes)
+    (hfin : hp.tp.core.finalized.contains (keyOf u) = false) (hnone : hp.tp.core.findSub (keyOf u) = none)
+    (href : refusalOf b pc sg s hp.tp u = none) (hkey : sg.hasKey (keyOf u).publisher = true) :
+    offer hc b pc sg s hp u sender =
+      (HProc.setQueue ⟨register hp.tp s (keyOf u), hp.queues⟩ (keyOf u) [(u, sender)], .taken) :=
+  offer_new_key hc b pc sg s hp u sender hfin hnone href hkey
+
+/-- `handover_later_unit_taken_iff_room` — a unit of a key that has a subprocessor is answered nil exactly
+when the NON-blocking send finds room in the channel, "channel full" otherwise; a dropped unit leaves no
+trace. The ONLY way `ProcessMessage` loses a unit with an error. -/
+theorem handover_later_unit_taken_iff_room [DecidableEq H] (hc : HCfg) (b : Bounds) (pc : PCfg)
+    (sg : SigScheme H) (s : Sched) (hp : HProc H) (u : PUnit H) (sender : Bytes)
+    (hfin : hp.tp.core.finalized.contains (keyOf u) = false)
+    (hsome : (hp.tp.core.findSub (keyOf u)).isSome = true) :
+    offer hc b pc sg s hp u sender =
+      if hasRoom (chanCap hc s) (hp.queueOf (keyOf u)) then
+        (hp.setQueue (keyOf u) (hp.queueOf (keyOf u) ++ [(u, sender)]), .taken)
+      else (hp, .full) :=
+  offer_existing hc b pc sg s hp u sender hfin hsome
+
+/-- `handover_creation_then_first_unit_is_the_sequential_step` — THE BRIDGE to §9–§11: creating the
+subprocessor at the hand-over and letting it deal with its first unit later gives the outcome AND the
+processor (subprocessors, finalized keys, both counters) that the sequential model's single step gives
+(a panic aside, after which there is no processor; §9 excludes it for the current code). -/
+theorem handover_creation_then_first_unit_is_the_sequential_step [DecidableEq H] (b : Bounds) (cfg : Cfg)
+    (pc : PCfg) (f : HashFns H) (rs : RS) (sg : SigScheme H) (s : Sched) (tp : TProc H) (u : PUnit H)
+    (sender : Bytes)
+    (hfin : tp.core.finalized.contains (keyOf u) = false) (hnone : tp.core.findSub (keyOf u) = none)
+    (href : refusalOf b pc sg s tp u = none) (hkey : sg.hasKey (keyOf u).publisher = true) :
+    (tprocStep b cfg pc f rs sg s (register tp s (keyOf u)) u sender).2 =
+      (tprocStep b cfg pc f rs sg s tp u sender).2 ∧
+    ((tprocStep b cfg pc f rs sg s tp u sender).2 ≠ .panic →
+      tprocStep b cfg pc f rs sg s (register tp s (keyOf u)) u sender =
+        tprocStep b cfg pc f rs sg s tp u sender) := by
+  obtain ⟨h1, h2⟩ := tprocStep_register b cfg pc f rs sg s tp u sender hfin hnone href hkey
+  refine ⟨h1, fun hnp => ?_⟩
+  obtain ⟨c1, c2, c3⟩ := h2 hnp
+  exact Prod.ext (tproc_ext _ _ c1 c2 c3) h1
+
+/-- `handover_burst_all_taken` (5e563fa) — units of a key that has a subprocessor, handed over back to
+back while the subprocessor is busy: as long as no more than `NumTotalShards` wait in the channel, EVERY
+one is answered nil and waits in arrival order; nothing else of the processor changes. -/
+theorem handover_burst_all_taken [DecidableEq H] (b : Bounds) (pc : PCfg) (sg : SigScheme H) (s : Sched)
+    (key : MsgKey H) (rest : List (PUnit H × Bytes)) (hp : HProc H)
+    (hfin : hp.tp.core.finalized.contains key = false) (hsome : (hp.tp.core.findSub key).isSome = true)
+    (hkeys : ∀ x ∈ rest, keyOf x.1 = key) (hlen : (hp.queueOf key).length + rest.length ≤ s.total) :
+    (offerAll HCfg.current b pc sg s hp rest).2 = List.replicate rest.length .taken ∧
+    (offerAll HCfg.current b pc sg s hp rest).1.tp = hp.tp ∧
+    (offerAll HCfg.current b pc sg s hp rest).1.queueOf key = hp.queueOf key ++ rest :=
+  offerAll_existing b pc sg s key rest hp hfin hsome hkeys hlen
+
+/-- `handover_subprocessor_follows_sequential_model` — a subprocessor that works through its channel does
+with the waiting units, in order, exactly what the sequential model (`tprocRun`, §9–§11) does with them,
+as long as it goes on after each; whatever waits behind them does not matter. -/
+theorem handover_subprocessor_follows_sequential_model [DecidableEq H] (b : Bounds) (cfg : Cfg) (pc : PCfg)
+    (f : HashFns H) (rs : RS) (sg : SigScheme H) (s : Sched) (key : MsgKey H)
+    (q extra : List (PUnit H × Bytes)) (hp : HProc H) (pre : List (ProcOut H)) (last : ProcOut H)
+    (hq : hp.queueOf key = q ++ extra) (hkeys : ∀ x ∈ q, keyOf x.1 = key)
+    (hrun : tprocRun b cfg pc f rs sg s hp.tp q = pre ++ [last])
+    (hpre : ∀ o ∈ pre, ∃ bb, o = .handled bb none none) :
+    (consumeN b cfg pc f rs sg s key q.length hp).2 = pre ++ [last] :=
+  consumeN_eq_tprocRun b cfg pc f rs sg s key extra q hp pre last hq hkeys hrun hpre
+
+/-- `handover_burst_builds_exact_message` — LIVENESS THROUGH THE HAND-OVER, the code in /repo: the clause
+"reconstructed from any subset of at least the threshold" for units that arrive TOGETHER. A message the
+processor has not seen, a free slot for its publisher; `k` distinct honest units in any order and then any
+further units of the same message key (honest, duplicates, forged), at most `NumTotalShards` in all, are
+handed over back to back before the subprocessor has dealt with a single one: every `ProcessMessage`
+answers nil; the subprocessor stores the first `k-1`, the `k`-th builds EXACTLY `msg`, and exactly one
+unit is broadcast — the publisher's unit for the local index. -/
+theorem handover_burst_builds_exact_message [DecidableEq H] (b : Bounds) (f : HashFns H) (rs : RS)
+    (sg : SigScheme H) (id : Bytes) (nodes : List Bytes) (s : Sched) (hs : newScheduler id nodes = .ok s)
+    (C P : Bytes) (hPm : P ∈ nodes) (hP : P ≠ id) (hkey : sg.hasKey P = true)
+    (nonce : Nat) (msg : Bytes) (hl : RSLaws rs s.k s.c) (hin : PadInput msg s.k)
+    (hok : rsNewOk s.k s.c = true) (hsmall : msg.length < 2 ^ 40)
+    (hsig : SigOk f rs sg s C P nonce msg) (hp : HProc H) (hinv : ProcInv s hp.tp.core)
+    (hfin : hp.tp.core.finalized.contains (hKey f rs s C P nonce msg) = false)
+    (hnone : hp.tp.core.findSub (hKey f rs s C P nonce msg) = none)
+    (hslot : hp.tp.ptasks P ≠ b.maxPerPublisher ∧ hp.tp.tasks ≠ b.maxWorkers)
+    (idxs : List Nat) (hnd : idxs.Nodup) (hlt : ∀ i ∈ idxs, i < s.total) (hlen : idxs.length = s.k)
+    (extra : List (PUnit H × Bytes)) (hextra : ∀ x ∈ extra, keyOf x.1 = hKey f rs s C P nonce msg)
+    (hroom : s.k + extra.length ≤ s.total) :
+    (offerAll HCfg.current b PCfg.current sg s hp
+        (idxs.map (fun i => (honestUnit Cfg.current f rs sg C P nonce msg s.k s.c i, s.sender P i)) ++ extra)).2 =
+      List.replicate (s.k + extra.length) .taken ∧
+    ∃ li, s.shardIndexFor P = .ok li ∧ li < s.total ∧ ∃ pre bc e,
+      (consumeN b Cfg.current PCfg.current f rs sg s (hKey f rs s C P nonce msg) s.k
+        (offerAll HCfg.current b PCfg.current sg s hp
+          (idxs.map (fun i => (honestUnit Cfg.current f rs sg C P nonce msg s.k s.c i, s.sender P i)) ++ extra)).1).2 =
+        pre ++ [.handled bc (some msg) e] ∧
+      (∀ o ∈ pre, ∃ bb, o = .handled bb none none) ∧
+      (pre ++ [.handled bc (some msg) e]).flatMap ProcOut.bcast =
+        [honestUnit Cfg.current f rs sg C P nonce msg s.k s.c li] :=
+  burst_builds b f rs sg id nodes s hs C P hPm hP hkey nonce msg hl hin hok hsmall hsig hp hinv hfin hnone hslot
+    idxs hnd hlt hlen extra hextra hroom
+
+/-- `handover_one_at_a_time_is_the_sequential_model` — the model of §9–§11 is the special case of the
+hand-over model in which every hand-over is followed at once by the subprocessor dealing with the unit:
+when nothing waits for the unit's key, `ProcessMessage` answers `ignored` exactly when the sequential
+step says ignored, a refusal exactly when it says `noRoute` (nothing changes), never "channel full"
+(either channel variant) and never panics; and the `consume` of a taken unit has the sequential step's
+outcome and leaves the sequential step's processor. So every theorem of §9–§11 (safety over all runs,
+task counters, liveness after rejected units) is a theorem about those runs of the code's two-phase
+hand-over. The code in /repo (`PCfg.current`). -/
+theorem handover_one_at_a_time_is_the_sequential_model [DecidableEq H] (hc : HCfg) (b : Bounds) (cfg : Cfg)
+    (f : HashFns H) (rs : RS) (sg : SigScheme H) (s : Sched) (hp : HProc H) (u : PUnit H) (sender : Bytes)
+    (hq : hp.queueOf (keyOf u) = []) (htotal : 0 < s.total) :
+    ((offer hc b PCfg.current sg s hp u sender).2 = .ignored →
+      tprocStep b cfg PCfg.current f rs sg s hp.tp u sender = (hp.tp, .ignored)) ∧
+    (∀ x, (offer hc b PCfg.current sg s hp u sender).2 = .refused x →
+      tprocStep b cfg PCfg.current f rs sg s hp.tp u sender = (hp.tp, .noRoute)) ∧
+    (offer hc b PCfg.current sg s hp u sender).2 ≠ .full ∧
+    (offer hc b PCfg.current sg s hp u sender).2 ≠ .panic ∧
+    ((offer hc b PCfg.current sg s hp u sender).2 = .taken →
+      (consume b cfg PCfg.current f rs sg s (offer hc b PCfg.current sg s hp u sender).1 (keyOf u)).2 =
+        some (tprocStep b cfg PCfg.current f rs sg s hp.tp u sender).2 ∧
+      ((tprocStep b cfg PCfg.current f rs sg s hp.tp u sender).2 ≠ .panic →
+        (consume b cfg PCfg.current f rs sg s (offer hc b PCfg.current sg s hp u sender).1 (keyOf u)).1.tp =
+          (tprocStep b cfg PCfg.current f rs sg s hp.tp u sender).1)) :=
+  offer_then_consume hc b cfg f rs sg s hp u sender hq htotal
+
+/-- `units_behind_an_ended_subprocessor_are_lost` — what the code does, stated so that it is not mistaken
+for something else: when the unit a subprocessor deals with ENDS it (its first unit is invalid; the
+receive threshold is reached; the build fails), `Run` forgets the subprocessor with its channel:
+whatever had been handed over and still waited there is gone although `ProcessMessage` answered nil to
+each. After a completed message that is harmless (the key is finalized); after an invalid FIRST unit the
+key is not finalized (5ab3121), so the lost units may have been honest ones — they are lost only if
+they were handed over in the window between the forged unit's hand-over and `Run`'s clean-up
+(notes, R6.5: observation, with the harness' measurement). -/
+theorem units_behind_an_ended_subprocessor_are_lost [DecidableEq H] (b : Bounds) (cfg : Cfg) (pc : PCfg)
+    (f : HashFns H) (rs : RS) (sg : SigScheme H) (s : Sched) (hp : HProc H) (u : PUnit H) (sender : Bytes)
+    (rest : List (PUnit H × Bytes)) (hq : hp.queueOf (keyOf u) = (u, sender) :: rest)
+    (bc : List (PUnit H)) (bu : Option Bytes) (e : Bool)
+    (hout : (tprocStep b cfg pc f rs sg s hp.tp u sender).2 = .handled bc bu (some e)) :
+    (consume b cfg pc f rs sg s hp (keyOf u)).2 = some (.handled bc bu (some e)) ∧
+    (consume b cfg pc f rs sg s hp (keyOf u)).1.queueOf (keyOf u) = [] ∧
+    (consume b cfg pc f rs sg s hp (keyOf u)).1.tp.core.findSub (keyOf u) = none :=
+  consume_ended_drops_queue b cfg pc f rs sg s hp u sender rest hq bc bu e hout
+
+/-- Regression witness for 5e563fa (unbuffered channel, non-blocking send): the unit that follows the first
+unit of a new message before the subprocessor has dealt with it was DROPPED, whichever unit it was (an
+honest one included), and the processor was as if it had never been offered: of `k ≥ 2` honest units
+handed over back to back one arrived, the message was not built. -/
+theorem second_unit_dropped_before_fix_5e563fa [DecidableEq H] (b : Bounds) (pc : PCfg) (sg : SigScheme H)
+    (s : Sched) (hp : HProc H) (u : PUnit H) (sender : Bytes)
+    (hfin : hp.tp.core.finalized.contains (keyOf u) = false) (hnone : hp.tp.core.findSub (keyOf u) = none)
+    (href : refusalOf b pc sg s hp.tp u = none) (hkey : sg.hasKey (keyOf u).publisher = true)
+    (u2 : PUnit H) (sender2 : Bytes) (hk2 : keyOf u2 = keyOf u) :
+    offer HCfg.before5e563fa b pc sg s (offer HCfg.before5e563fa b pc sg s hp u sender).1 u2 sender2 =
+      ((offer HCfg.before5e563fa b pc sg s hp u sender).1, .full) :=
+  second_offer_full_unbuffered b pc sg s hp u sender hfin hnone href hkey u2 sender2 hk2
+
 /-! ## Non-vacuity: the hypotheses are satisfiable -/
 
 example : Ideal termFns := ideal_termFns
@@ -1169,5 +1335,50 @@ example : (∀ o ∈ (tprocRunEv Bounds.real Cfg.current PCfg.current termFns re
       o ≠ .panic) :=
   (processor_safe_over_all_runs Bounds.real termFns repCode12 toySig [1] [[3], [1], [2], [4]] sched4 rfl
     repCode12_laws _).1
+
+/-! ### Non-vacuity of the round-6 theorems (the hand-over) -/
+
+example : chanCap HCfg.current sched4 = 3 ∧ chanCap HCfg.before5e563fa sched4 = 0 ∧
+    hasRoom 3 [1, 2] = true ∧ hasRoom 3 [1, 2, 3] = false ∧ hasRoom 0 ([] : List Nat) = true ∧
+    hasRoom 0 [1] = false := by decide
+
+/-- An instantiated burst through `handover_burst_builds_exact_message`: committee of 4 (k = 1, 3 shards),
+unit 2, then unit 1 and unit 2 AGAIN, handed over back to back to the empty processor: three times nil;
+the subprocessor builds `hi` from the first and broadcasts unit 0. -/
+example : (offerAll HCfg.current Bounds.real PCfg.current toySig sched4 HProc.empty
+      ([2].map (fun i => (honestUnit Cfg.current termFns repCode12 toySig [7] [2] 5 [104, 105] 1 2 i, sched4.sender [2] i)) ++
+        [(honestUnit Cfg.current termFns repCode12 toySig [7] [2] 5 [104, 105] 1 2 1, sched4.sender [2] 1),
+         (honestUnit Cfg.current termFns repCode12 toySig [7] [2] 5 [104, 105] 1 2 2, sched4.sender [2] 2)])).2 =
+    [.taken, .taken, .taken] :=
+  (handover_burst_builds_exact_message Bounds.real termFns repCode12 toySig [1] [[3], [1], [2], [4]]
+    sched4 rfl [7] [2] (by decide) (by decide) rfl 5 [104, 105] repCode12_laws
+    (by unfold PadInput; decide) (by decide) (by decide) ⟨by decide, rfl⟩ HProc.empty (procInv_empty _) rfl rfl
+    ⟨by decide, by decide⟩ [2] (by decide) (by decide) rfl
+    [(honestUnit Cfg.current termFns repCode12 toySig [7] [2] 5 [104, 105] 1 2 1, sched4.sender [2] 1),
+     (honestUnit Cfg.current termFns repCode12 toySig [7] [2] 5 [104, 105] 1 2 2, sched4.sender [2] 2)]
+    (by intro x hx; simp only [List.mem_cons, List.not_mem_nil, or_false] at hx; rcases hx with hx | hx <;> (rw [hx]; rfl))
+    (by decide)).1
+
+/-- Before 5e563fa: the same first two units, the second is dropped. -/
+example : (offer HCfg.before5e563fa Bounds.real PCfg.current toySig sched4
+      (offer HCfg.before5e563fa Bounds.real PCfg.current toySig sched4 HProc.empty
+        (honestUnit Cfg.current termFns repCode12 toySig [7] [2] 5 [104, 105] 1 2 2) (sched4.sender [2] 2)).1
+      (honestUnit Cfg.current termFns repCode12 toySig [7] [2] 5 [104, 105] 1 2 1) (sched4.sender [2] 1)).2 = .full :=
+  congrArg Prod.snd (second_unit_dropped_before_fix_5e563fa Bounds.real PCfg.current toySig sched4 HProc.empty
+    (honestUnit Cfg.current termFns repCode12 toySig [7] [2] 5 [104, 105] 1 2 2) (sched4.sender [2] 2) rfl rfl rfl rfl
+    (honestUnit Cfg.current termFns repCode12 toySig [7] [2] 5 [104, 105] 1 2 1) (sched4.sender [2] 1) rfl)
+
+
+/-- `handover_one_at_a_time_is_the_sequential_model` instantiated: committee of 4, empty processor, unit 2
+handed over and dealt with at once = the sequential step (which builds `hi`). -/
+example : (consume Bounds.real Cfg.current PCfg.current termFns repCode12 toySig sched4
+      (offer HCfg.current Bounds.real PCfg.current toySig sched4 HProc.empty
+        (honestUnit Cfg.current termFns repCode12 toySig [7] [2] 5 [104, 105] 1 2 2) (sched4.sender [2] 2)).1
+      (keyOf (honestUnit Cfg.current termFns repCode12 toySig [7] [2] 5 [104, 105] 1 2 2))).2 =
+    some (tprocStep Bounds.real Cfg.current PCfg.current termFns repCode12 toySig sched4 TProc.empty
+      (honestUnit Cfg.current termFns repCode12 toySig [7] [2] 5 [104, 105] 1 2 2) (sched4.sender [2] 2)).2 :=
+  ((handover_one_at_a_time_is_the_sequential_model HCfg.current Bounds.real Cfg.current termFns repCode12 toySig
+    sched4 HProc.empty (honestUnit Cfg.current termFns repCode12 toySig [7] [2] 5 [104, 105] 1 2 2)
+    (sched4.sender [2] 2) rfl (by decide)).2.2.2.2 rfl).1
 
 end Juno.C19.Props
